@@ -113,6 +113,7 @@ static std::string exc_class(const std::string& m)
 	if(m.size() >= 9 && m.compare(m.size() - 9, 9, "not found") == 0) return "notfound";
 	if(m.compare(0, 13, "Sample offset") == 0) return "offset";
 	if(m.compare(0, 19, "Sample does not fit") == 0) return "nofit";
+	if(m.compare(0, 13, "Sample length") == 0) return "toolong";
 	return "other";
 }
 
